@@ -1,5 +1,3 @@
-//go:build wip_c15
-
 package props
 
 import (
@@ -20,8 +18,8 @@ func init() {
 		Title: "Export followed by import reproduces the tree",
 		Explanation: "Structural necessary conditions of the export/import round trip decided on every CFG path of the exporter, its recursive helper, the id replacer and the importer (DESIGN.md §3/C15); YAML fidelity over all strings is NOT decided. " +
 			"R1 every listing call reachable from the exporter passes includeDeleted=false; the recursive helper lists the children of its node (no type filter), and on every path through the loop over them recurses into a NodeEdgeChildren built from the element and appends it to Children afterwards; the marshalled value is built from the root after the helper ran; " +
-			"R2 a key rewrite `Key = B` in the exporter is reachable only when the key equals A, where the store's point writer of that kind of point maps B back to A; the compaction of edge points drops a point only when its type is tombstone and its value is 0 (enumerated over the 4 valuations); " +
-			"R3 in the id replacer every identifier written to a node or to the text of a point was looked up in the one map under the OLD value and, on a miss, freshly generated and stored under that old value (empty node ids excepted); exactly the non-empty node-id points are rewritten; every node receives the parent given by its caller and every child is visited through its slice element with the parent's NEW id; " +
+			"R2 a key rewrite `Key = B` in the exporter is reachable only when the key equals A, where the store's point writer of that kind of point maps B back to A; the compaction of edge points drops a point only when its type is tombstone and its value is 0 and never leaves its loop early (enumerated over the 4 valuations); " +
+			"R3 in the id replacer every identifier written to a node or to the text of a point was looked up in the one map under the OLD value and, on a miss, freshly generated and stored under that old value (empty node ids excepted); exactly the node-id points with non-empty text are rewritten (an empty reference stays empty); every node receives the parent given by its caller and every child is visited through its slice element with the parent's NEW id; " +
 			"R4 a string constant is concatenated to a point text only in the importer itself, on an element of Nodes[0].Points whose type is description; with preserve-ids no replacer call is reachable, without it every path to the send passes the replacer on &Nodes[0] with the requested parent; the top node's Parent is set to the requested parent before the send.",
 		Assumptions: []string{
 			"the YAML marshaller round-trips the exported structs (third-party, not analysed)",
@@ -322,7 +320,7 @@ func (m *c15Msgs) settle(o *kit.Ob, okFmt string, a ...any) {
 
 func runC15(c *kit.Ctx) {
 	a := c15Find(c)
-	c.Analysed(a.list, a.exporter, a.importer, a.helper, a.replacer)
+	c.Analysed(a.exporter, a.importer, a.helper, a.replacer)
 	r1 := c.Rule("R1", "export lists live nodes only and descends into every child", 5)
 	r2 := c.Rule("R2", "export noise reduction is undone by the store / drops only tombstone-0 edge points", 3)
 	r3 := c.Rule("R3", "id replacement is a function of the old id", 5)
@@ -691,7 +689,7 @@ func c15R2(c *kit.Ctx, a *c15Anchors, r2 *kit.Rule) {
 		if w == nil {
 			c.Fatalf("store point writer for %s not found", k)
 		}
-		c.Analysed(w.F)
+		c.Note("C15/R2 reads the key normalisation of %s", w.F.Name)
 	}
 	f := a.helper
 	info := f.Info()
@@ -868,7 +866,8 @@ func c15R2(c *kit.Ctx, a *c15Anchors, r2 *kit.Rule) {
 		ncomp++
 		o := r2.Ob(f, l.rs, "compaction of "+l.field, "an element is left out only when its type is tombstone and its value is 0 (valuations TF, FT, FF must keep it)")
 		var m c15Msgs
-		for _, val := range [][2]string{{"T", "F"}, {"F", "T"}, {"F", "F"}} {
+		for _, val := range [][2]string{{"T", "F"}, {"F", "T"}, {"F", "F"}, {"T", "T"}} {
+			mustKeep := !(val[0] == "T" && val[1] == "T")
 			st := &kit.Std{F: f}
 			st.Eval.Atom = func(e ast.Expr) (string, bool, bool) {
 				if neg, ok := eqAtom(e, func(x ast.Expr) bool { return c15Field(info, x, "Type", elem) }, constStringIs(info, tomb)); ok {
@@ -882,7 +881,13 @@ func c15R2(c *kit.Ctx, a *c15Anchors, r2 *kit.Rule) {
 				}
 				return "", false, false
 			}
+			escaped := false
 			st.OnNode = func(n ast.Node, s kit.S) []kit.S {
+				if n.Pos() < l.rs.Pos() || n.Pos() >= l.rs.End() {
+					// the body was left without passing the loop head
+					escaped = true
+					return nil
+				}
 				for _, k := range keeps {
 					if n == k {
 						return []kit.S{s.Set("kept", "1")}
@@ -917,7 +922,10 @@ func c15R2(c *kit.Ctx, a *c15Anchors, r2 *kit.Rule) {
 					skipped = true
 				}
 			}
-			if skipped {
+			if escaped {
+				m.viol("for an element of %s with (type is tombstone: %s, value is 0: %s) the loop at %s can be left before the remaining elements are visited: they are cut off by the compaction", l.field, val[0], val[1], f.At(l.rs))
+			}
+			if skipped && mustKeep {
 				m.viol("an element of %s with (type is tombstone: %s, value is 0: %s) can pass the loop at %s without being kept: that edge point is missing from the export", l.field, val[0], val[1], f.At(l.rs))
 			}
 		}
